@@ -70,6 +70,9 @@ func runC01(env *core.Env, res *core.Result) {
 		res.Cases++
 		r := env.Rand(i)
 		c01One(i, r, res)
+		if cronHung {
+			core.AbortWorker(res, env.To-i-1)
+		}
 	}
 }
 
